@@ -19,7 +19,7 @@ def main(tier):
     sib.model_families(P, rep)                 # sibling implementations agree on their guards (zero-thickness, range, sentinel tests)
     dep.surface_pairing(P, rep)
     segments.line_siblings(P, rep)     # slab and fault are copies of one another: shortcuts, input checks and guards must agree
-    divguard.division_guards(P, rep)   # denominators that vanish at the degenerate locations the property lists are guarded
+    divguard.division_guards(P, rep, reach=R)   # denominators that vanish at the degenerate locations the property lists are guarded
     rep.assumptions.append("finiteness of the returned numbers and absence of division by zero at degenerate points are NOT decided in "
                            "general (numeric; see DESIGN.md §4 C13); decided are only the shape of some guards: the NaN-absorbing clamp before "
                            "acos, release-active arity checks of per-section tables, agreement of sibling models on their guards")
